@@ -118,6 +118,9 @@ pub struct Perturb {
     pub host: Option<String>,
     /// the source path is a symbolic link to a file with another base name in another directory
     pub src_symlink: bool,
+    /// standard descriptors that answer isatty() with yes (bit 0 stdin, bit 1 stdout): an
+    /// interactive console instead of a file or pipe; the bytes still go where the sink is
+    pub tty_mask: u32,
     /// number of CPUs the process may run on (affinity mask); None = all
     pub ncpu: Option<u32>,
     /// persistent per-user state: HOME, XDG_CACHE_HOME and TMPDIR point to directories that
@@ -149,6 +152,7 @@ impl Perturb {
             src_mtime: Some(1_600_000_000),
             host: None,
             src_symlink: false,
+            tty_mask: 0,
             ncpu: None,
             persist_home: false,
             prev_run: None,
@@ -177,6 +181,7 @@ impl Perturb {
             "src_mtime": self.src_mtime,
             "host": self.host,
             "src_symlink": self.src_symlink,
+            "tty_mask": self.tty_mask,
             "ncpu": self.ncpu,
             "persist_home": self.persist_home,
             "prev_run": self.prev_run.as_ref().map(|s| s.to_json()),
@@ -213,6 +218,7 @@ impl Perturb {
         p.src_mtime = v["src_mtime"].as_i64();
         p.host = v["host"].as_str().map(String::from);
         p.src_symlink = v["src_symlink"].as_bool().unwrap_or(false);
+        p.tty_mask = v["tty_mask"].as_u64().unwrap_or(0) as u32;
         p.ncpu = v["ncpu"].as_u64().map(|x| x as u32);
         p.persist_home = v["persist_home"].as_bool().unwrap_or(false);
         p.prev_run = if v["prev_run"].is_null() { None } else { Sibling::from_json(&v["prev_run"]) };
@@ -394,7 +400,7 @@ pub fn run_proc(ctx: &Ctx, wd: &WorkerDir, job: &Job, text: &str, p: &Perturb, c
     if let Some((b, s, j)) = p.clock {
         plan.push_str(&format!("clock=1\nclock_base={b}\nclock_step_ns={s}\nclock_jump_every={j}\n"));
     }
-    plan.push_str(&format!("pid={}\nrd_rate={}\nwr_rate={}\n", p.pid, p.rd_rate, p.wr_rate));
+    plan.push_str(&format!("pid={}\nrd_rate={}\nwr_rate={}\ntty={}\n", p.pid, p.rd_rate, p.wr_rate, p.tty_mask));
     if let Some(h) = &p.host {
         plan.push_str(&format!("host={h}\n"));
     }
@@ -594,6 +600,10 @@ pub fn draw_perturb(rng: &mut Rng, backend: Backend, ref_out: &ProcOut, has_test
         p.ncpu = Some(*rng.pick(&[1u32, 2, 3, 5, 7, 11]));
     }
     p.src_symlink = on(15);
+    if on(16) {
+        // stdout (and in half of these runs stdin) claims to be a terminal
+        p.tty_mask = if on(17) { 0b11 } else { 0b10 };
+    }
     if on(14) {
         p.persist_home = true;
         if rng.below(2) == 0 {
@@ -708,6 +718,7 @@ fn note_enabled(p: &Perturb, st: &mut RunStats) {
     bump(&mut st.enabled, "hostname", p.host.is_some() as u64);
     bump(&mut st.enabled, "cpu_affinity", p.ncpu.is_some() as u64);
     bump(&mut st.enabled, "source_path_is_a_symlink", p.src_symlink as u64);
+    bump(&mut st.enabled, "stdout_is_a_terminal", (p.tty_mask != 0) as u64);
     bump(&mut st.enabled, "persistent_home_and_tmp", p.persist_home as u64);
     bump(&mut st.enabled, "previous_run_of_a_sibling_under_the_same_name", p.prev_run.is_some() as u64);
     bump(&mut st.enabled, "short_or_eintr_write", (p.wr_rate > 0) as u64);
@@ -728,7 +739,7 @@ fn note_enabled(p: &Perturb, st: &mut RunStats) {
 fn note_fired(log: &ShimLog, st: &mut RunStats) {
     for (k, n) in &log.counts {
         match k.as_str() {
-            "getrandom" | "clock" | "getpid" | "hostname" | "rd_short" | "rd_eintr" | "rd_hard" | "wr_short" | "wr_eintr" | "wr_hard" | "wr_crash" => bump(&mut st.fired, k, *n),
+            "getrandom" | "clock" | "getpid" | "hostname" | "isatty" | "rd_short" | "rd_eintr" | "rd_hard" | "wr_short" | "wr_eintr" | "wr_hard" | "wr_crash" => bump(&mut st.fired, k, *n),
             _ => {}
         }
     }
